@@ -334,8 +334,8 @@ def run_check(prop, tier, plan, seed):
                            "max_exec": plan.get("shrink_execs", 150), "_jit": jit, "params": task["params"]}
                           for task, reply in todo if bool(task.get("_jit")) == jit]
                 run_tasks(stasks, min(nworkers, len(stasks)), jit, 0, logdir, on_shrunk)
-            rdir = VERIF / "replays"
-            rdir.mkdir(exist_ok=True)
+            rdir = pathlib.Path(os.environ.get("YADSIM_REPLAY_DIR", str(VERIF / "replays")))
+            rdir.mkdir(parents=True, exist_ok=True)
             for task, reply in results:
                 if "error" in reply or reply.get("min_trace") is None:
                     harness_errors.append(f"shrink failed for index={task['index']}: {reply.get('error', 'violation vanished on re-execution')}")
@@ -381,8 +381,9 @@ def run_check(prop, tier, plan, seed):
         wall = time.monotonic() - t_start
         ev = plan["evidence"](agg, det, tier, seed, wall, t_main, n_new,
                               [str(p) for p, _, _ in reported], unprocessed)
-        (VERIF / "evidence").mkdir(exist_ok=True)
-        (VERIF / "evidence" / f"{prop}.json").write_text(json.dumps(ev, indent=1, sort_keys=False))
+        edir = pathlib.Path(os.environ.get("YADSIM_EVIDENCE_DIR", str(VERIF / "evidence")))
+        edir.mkdir(parents=True, exist_ok=True)
+        (edir / f"{prop}.json").write_text(json.dumps(ev, indent=1, sort_keys=False))
         for ln in lines:
             print(ln, flush=True)
         print(f"[yadsim] {prop} {tier}: runs={agg.evaluations} inconclusive={len(agg.inconclusive)} "
@@ -393,7 +394,7 @@ def run_check(prop, tier, plan, seed):
             for h in harness_errors:
                 print(f"HARNESS-ERROR {h}", flush=True)
             # keep worker logs for diagnosis
-            keep = VERIF / "replays" / f"harness-logs-{prop}"
+            keep = pathlib.Path(os.environ.get("YADSIM_REPLAY_DIR", str(VERIF / "replays"))) / f"harness-logs-{prop}"
             shutil.rmtree(keep, ignore_errors=True)
             shutil.copytree(logdir, keep)
             exit_code = 2
